@@ -50,6 +50,7 @@ type Val struct {
 	Origin  *Loc // slice made from array storage
 	OriginT types.Type
 	Seq     *seqView // slice seen as a value sequence (spec functions)
+	SetSort string   // ghost set values: SMT sort (Array K Bool)
 }
 
 // State is the symbolic store at a program point.
@@ -60,6 +61,7 @@ type State struct {
 	heap    map[string]string
 	ghost   map[string]*Val // ghost cells (range counters)
 	epoch   string
+	aliveRefs []string // refs known to be alive (or nil): parameters and local allocations
 }
 
 func (s *State) cellsByName(name string, v *Val) { s.ghost[name] = v }
@@ -70,6 +72,7 @@ func (s *State) clone() *State {
 	for k, v := range s.ghost {
 		n.ghost[k] = v
 	}
+	n.aliveRefs = s.aliveRefs[:len(s.aliveRefs):len(s.aliveRefs)]
 	for k, v := range s.cells {
 		n.cells[k] = v
 	}
@@ -119,12 +122,31 @@ func sortKey(sort string) string {
 
 func (x *exec) fieldArr(st types.Type, i int) (string, string) {
 	si := x.c.structOf(st)
-	return "F!" + si.fields[i], fmt.Sprintf("(Array Int %s)", x.c.SortOf(si.ftypes[i]))
+	name := "F!" + si.fields[i]
+	if m, ok := si.ftypes[i].Underlying().(*types.Map); ok && x.mapField != nil {
+		x.mapField[name] = m
+	}
+	if sl, ok := si.ftypes[i].Underlying().(*types.Slice); ok && x.sliceElem != nil {
+		if _, seen := x.sliceElem[name]; !seen {
+			x.sliceElem[name] = "E!" + sortKey(x.c.SortOf(sl.Elem()))
+		}
+	}
+	return name, fmt.Sprintf("(Array Int %s)", x.c.SortOf(si.ftypes[i]))
 }
 
 func (x *exec) ptrArr(t types.Type) (string, string) {
 	s := x.c.SortOf(t)
-	return "P!" + sortKey(s), fmt.Sprintf("(Array Int %s)", s)
+	name := "P!" + sortKey(s)
+	if sl, ok := t.Underlying().(*types.Slice); ok && x.sliceElem != nil {
+		// P!Slice is shared by all slice element types: only usable when unambiguous
+		e := "E!" + sortKey(x.c.SortOf(sl.Elem()))
+		if old, seen := x.sliceElem[name]; seen && old != e {
+			x.sliceElem[name] = ""
+		} else if !seen {
+			x.sliceElem[name] = e
+		}
+	}
+	return name, fmt.Sprintf("(Array Int %s)", s)
 }
 
 func (x *exec) elemArr(t types.Type) (string, string) {
@@ -180,12 +202,9 @@ func (x *exec) load(s *State, l *Loc, t types.Type) *Val {
 		}
 		return v
 	case LGlobal:
-		v, ok := s.globals[l.Global]
-		if !ok {
-			v = x.freshVal("G."+l.Global.Name(), t, s)
-			s.globals[l.Global] = v
-		}
-		return v
+		// package-level variables live in the heap map under G!<name> (lazily created, havocked by unknown calls)
+		name := "G!" + sanitize(shortKey(l.Global.String()))
+		return x.loaded(s, x.h.get(s, name, x.c.SortOf(t)), t)
 	case LObj:
 		if st, ok := t.Underlying().(*types.Struct); ok {
 			si := x.c.structOf(t)
@@ -203,7 +222,26 @@ func (x *exec) load(s *State, l *Loc, t types.Type) *Val {
 		return x.loaded(s, Sel(x.h.get(s, name, sort), l.Ref), t)
 	case LFieldHeap:
 		name, sort := x.fieldArr(l.T, l.Field)
-		return x.loaded(s, Sel(x.h.get(s, name, sort), l.Ref), t)
+		v := x.loaded(s, Sel(x.h.get(s, name, sort), l.Ref), t)
+		if _, isMap := t.Underlying().(*types.Map); isMap && !x.noAssume {
+			// A-NOALIAS: two different map-typed fields of one object never hold the same map
+			si := x.c.structOf(l.T)
+			var ds []string
+			for j, ft := range si.ftypes {
+				if j == l.Field {
+					continue
+				}
+				if _, ok := ft.Underlying().(*types.Map); ok && x.c.SortOf(ft) == x.c.SortOf(t) && types.Identical(ft.Underlying(), t.Underlying()) {
+					n2, s2 := x.fieldArr(l.T, j)
+					ds = append(ds, Not(Eq(x.term(v), Sel(x.h.get(s, n2, s2), l.Ref))))
+				}
+			}
+			if len(ds) > 0 {
+				x.assume(s, Or(Eq(x.term(v), "0"), And(ds...)))
+				x.note("A-NOALIAS: distinct map-typed fields of one object hold distinct maps")
+			}
+		}
+		return v
 	case LElem:
 		name, sort := x.elemArr(l.T)
 		arr := Sel(x.h.get(s, name, sort), App("s-ref", l.Slice))
@@ -241,7 +279,8 @@ func (x *exec) store(s *State, l *Loc, v *Val, t types.Type) {
 	case LCell:
 		s.cells[l.Alloc] = v
 	case LGlobal:
-		s.globals[l.Global] = v
+		name := "G!" + sanitize(shortKey(l.Global.String()))
+		x.h.set(s, name, x.c.SortOf(t), x.term(v))
 	case LObj:
 		if _, ok := t.Underlying().(*types.Struct); ok {
 			si := x.c.structOf(t)
@@ -401,6 +440,26 @@ func (x *exec) merge(ins []incoming, label string) *State {
 		}
 	}
 	out.reach = x.c.Define(x.c.Fresh("reach."+label), "Bool", Or(conds...))
+	// refs known alive on every incoming path
+	for _, r := range ins[0].st.aliveRefs {
+		all := true
+		for _, in := range ins[1:] {
+			found := false
+			for _, q := range in.st.aliveRefs {
+				if q == r {
+					found = true
+					break
+				}
+			}
+			if !found {
+				all = false
+				break
+			}
+		}
+		if all {
+			out.aliveRefs = append(out.aliveRefs, r)
+		}
+	}
 	same := true
 	for _, in := range ins[1:] {
 		if in.st.epoch != ins[0].st.epoch {
@@ -526,6 +585,9 @@ func (x *exec) mergeVals(conds []string, vs []*Val, stem string) *Val {
 			return &Val{Typ: v0.Typ}
 		}
 		ts = append(ts, v.T)
+	}
+	if v0.SetSort != "" {
+		return &Val{T: x.mergeTerms(conds, ts, stem, v0.SetSort), Typ: v0.Typ, SetSort: v0.SetSort}
 	}
 	t := x.mergeTerms(conds, ts, stem, x.c.SortOf(v0.Typ))
 	nv := x.mkVal(t, v0.Typ)
